@@ -139,7 +139,7 @@ package keeper
 // The handler returns (ACCEPT, nil) or (nil, err); baseapp turns an error into REJECT.
 //@ func (Keeper).ProcessProposalHandler$1
 //@ requires counters: st.bitcoin.EthTxNonce < 9223372036854775808 && st.locking.EthTxNonce < 9223372036854775808
-//@ property C08 C19
+//@ property C08 C19 C09
 //@ requires rpp != nil
 //@ requires counter: st.goat.Block.BlockNumber < 18446744073709551615
 //@ ensures accept_or_error: (result != nil) == (err == nil)
@@ -158,7 +158,7 @@ package keeper
 // Structural checks (goroutine 1) and engine newPayload (goroutine 2) run concurrently; Wait returns nil only if both did.
 //@ func (Keeper).verifyEthBlockProposal
 //@ requires counters: st.bitcoin.EthTxNonce < 9223372036854775808 && st.locking.EthTxNonce < 9223372036854775808
-//@ property C08 C19
+//@ property C08 C19 C09
 //@ requires msg != nil
 //@ requires counter: st.goat.Block.BlockNumber < 18446744073709551615
 //@ ensures payload: err == nil ==> msg.Payload != nil
@@ -175,7 +175,7 @@ package keeper
 // goroutine 1: structural checks against the committed state
 //@ func (Keeper).verifyEthBlockProposal$1
 //@ requires counters: st.bitcoin.EthTxNonce < 9223372036854775808 && st.locking.EthTxNonce < 9223372036854775808
-//@ property C08 C19
+//@ property C08 C19 C09
 //@ requires nonnil: *msg != nil && *payload != nil
 //@ requires counter: st.goat.Block.BlockNumber < 18446744073709551615
 //@ ensures proposer: err == nil ==> addrDecode((*msg).Proposer) == cometProposer() && addrDecode((*msg).Proposer) == (*payload).FeeRecipient
@@ -190,7 +190,7 @@ package keeper
 // goroutine 2: the engine must answer VALID for exactly this payload. It shares *payload with goroutine 1, so it
 // must not write it (C08: "free of data races"): clause payload_untouched.
 //@ func (Keeper).verifyEthBlockProposal$2
-//@ property C08 C19
+//@ property C08 C19 C09
 //@ requires nonnil: *payload != nil
 //@ ensures engine_valid: err == nil ==> engNPerr(0, edOf(old(*(*payload))), bytesToHash(old((*payload).BeaconRoot)), old((*payload).Requests)) == 0
 //@           && engNPvalid(0, edOf(old(*(*payload))), bytesToHash(old((*payload).BeaconRoot)), old((*payload).Requests))
